@@ -68,6 +68,45 @@ CHECKS = {
          "complete state effect.  Every command trxcon's real trx_if.c emits (incl. SETFH with 64 channels) is answered by the Python "
          "transceiver and the reply is fed back; TLC checks trx_if.c pops the command and the full effect on the transceiver.",
     note="trusted: TLC, faketrx_drv.py, drv_trxcon.c + osmo_fsm/socket stand-ins; integers limited to 9 digits (TLC 32-bit)"),
+ "C09": dict(
+    level="model_checking", design="5 (C09)",
+    technique="TLA+ spec ClckGen (absolute-deadline loop, overrun resync, indication filter) model-checked with TLC; traces of the real CLCKGen._worker on a virtual clock validated against ClckGenTrace; TLC-simulated behaviours replayed",
+    text="TLC explores all handler-duration patterns (below/equal/above one frame), stop after any part of any wait, restarts, link sets and "
+         "periods for bounded runs and checks Consecutive, IndicationExact, NoDrift, ResyncNoCatchUp, RestartFromStart; the real _worker, "
+         "start(), stop() and send_clck_ind() run unmodified on virtual time and every tick / indication is validated against the spec.",
+    note="trusted: TLC, harness/py/vclock.py (virtual monotonic clock, time/threading stand-ins); host scheduler jitter is outside the statement; frame period accepted iff it rounds to 4615 us"),
+ "C02": dict(
+    level="model_checking", design="3 (C02)",
+    technique="TLA+ spec FakeTrx (routing predicate over per-frame Rx/Tx frequency incl. hopping via HoppingStd) with TLC model checking; traffic sessions of the real fake_trx.Application validated against FakeTrxTrace",
+    text="Every delivery of every tick of generated sessions (2..6 transceivers, random tuning/hopping/power/version/mute, clock started at "
+         "random frame numbers) is aligned by TLC with the deliveries the specification prescribes: exactly the other running "
+         "transceivers whose receive frequency in that frame equals the sender's transmit frequency; hopping is resolved by the "
+         "3GPP text transcription, not by the code.",
+    note="trusted: TLC, faketrx_drv.py; exhaustive only for the small MC configuration (3 transceivers, 2 frequencies)"),
+ "C03": dict(
+    level="model_checking", design="3 (C03)",
+    technique="TLA+ specs FakeTrx (modular queue partition, fate history) and FakeTrxThreads (statement-level interleavings of socket and clock thread) model-checked with TLC; histories and enumerated thread schedules of the real code validated as traces",
+    text="TLC checks NoSilentLoss / SentInOwnFrame / StaleOnlyIfPassed / ExactlyOnce over all bounded histories (Hyper=4: wrap explored) and all "
+         "interleavings of one socket-thread operation with one tick; sessions of the real Application (arrival offsets -3..+5, far "
+         "offsets, version mismatches, power cycles, starts just before the hyperframe wrap) are validated event by event, and every "
+         "line-level schedule with up to two pre-emptions of the real recv_data_msg / power handler racing the real clck_tick is "
+         "executed under a deterministic scheduler and validated with internal steps.",
+    note="trusted: TLC, faketrx_drv.py, baton.py (deterministic scheduler, mutex stand-in with the same exclusion semantics); pre-emption inside one source line is not enumerated"),
+ "C10": dict(
+    level="model_checking", design="3 (C10)",
+    technique="TLA+ spec FakeTrx.Delivery (bits, version, RSSI/ToA/C-I windows, TA, modulation, training-sequence tables) + TrxdPdu decoding; every datagram delivered by the real Application decoded and judged by TLC",
+    text="Each datagram a recipient gets is decoded by the specification's own DecRx and every field compared with what Delivery prescribes "
+         "from the sender's and recipient's state: frame/timeslot, full-confidence soft bits, recipient's header version with legacy "
+         "padding on v0, RSSI formula or FAKE_RSSI window, ToA base/threshold minus 256 x sender TA, C/I window, modulation by length, "
+         "TSC of the training sequence actually present (NB/SB/AB tables in the spec).",
+    note="trusted: TLC, faketrx_drv.py; the training-sequence tables in the spec were checked character by character against 45.002 as quoted in gsm_shared.py; bursts with several TS matches are not generated"),
+ "C18": dict(
+    level="model_checking", design="3 (C18)",
+    technique="TLA+ spec FakeTrx (drop counter and FN filter, mute on either side, NOPE vs silent drop by version) with TLC model checking (DropAccounting) and trace validation of burst streams on the real Application",
+    text="TLC checks drop accounting over all bounded histories; burst streams interleaved with FAKE_DROP n [period] / RFMUTE on both sides and "
+         "both header versions are validated delivery by delivery: suppressed exactly while the counter and the period filter say so, one "
+         "NOPE with noise-level values on v1, nothing on v0, rejected arguments leave the state unchanged.",
+    note="trusted: TLC, faketrx_drv.py"),
 }
 
 NOT_YET = {}
